@@ -96,6 +96,16 @@ fn scenarios() -> Vec<Scn> {
             tasks: vec![vec![Act::M(upd(1))], vec![Act::Get(0)]],
         },
         Scn {
+            // one writer (put, an unrelated read, put again) and one reader:
+            // inside the documented single-writer contract
+            name: "writer-put-read-put-vs-get",
+            setup: vec![init(0), put(2, 3, Mode::Overwrite)],
+            tasks: vec![
+                vec![Act::M(put(0, 1, Mode::Overwrite)), Act::Get(2), Act::M(put(0, 2, Mode::Overwrite))],
+                vec![Act::Get(0)],
+            ],
+        },
+        Scn {
             name: "two-overwrites-vs-get",
             setup: vec![init(0)],
             tasks: vec![
@@ -279,6 +289,74 @@ fn canon_labels(labels: &[vcore::ctlstore::Label]) -> Vec<String> {
         .collect()
 }
 
+/// Names the kind of non-serializable outcome (the signature suffix).
+///
+/// `not-serializable` is reserved for the one recorded deviation: every
+/// mutation answer and the final content fit a serial order, and the only
+/// misfit is a get answering NotFound after being overtaken by TWO OR MORE
+/// commits of the key (the read paths re-resolve a stale pointer once). A
+/// get failing after a single overtake, a get answering bytes, or misfitting
+/// mutation answers / final content get their own names.
+fn classify(
+    scn: &Scn,
+    serial: &[Serial],
+    outs: &[Vec<ActOut>],
+    fin: &Content,
+    switches: &[(usize, usize)],
+    journal: &[vcore::ctlstore::JournalEntry],
+) -> &'static str {
+    // do the answers fit a serial order once the gets are ignored?
+    let strip = |o: &[Vec<ActOut>]| -> Vec<Vec<Option<ActOut>>> {
+        o.iter()
+            .zip(&scn.tasks)
+            .map(|(t, acts)| t.iter().zip(acts).map(|(a, act)| if matches!(act, Act::Get(_)) { None } else { Some(a.clone()) }).collect())
+            .collect()
+    };
+    let mine = strip(outs);
+    if !serial.iter().any(|(so, sf, _)| strip(so) == mine && sf == fin) {
+        return "mutation-answers-or-final-content";
+    }
+    let mut worst = "get-answered-unserializable-value";
+    for (t, acts) in scn.tasks.iter().enumerate() {
+        for (i, act) in acts.iter().enumerate() {
+            let Act::Get(k) = act else { continue };
+            let a = &outs[t][i];
+            // values this get answers in some serial order
+            let legal: Vec<&ActOut> = serial.iter().map(|(so, _, _)| &so[t][i]).collect();
+            if legal.contains(&a) {
+                continue;
+            }
+            if let Some(b) = &a.body {
+                let ever_held = legal.iter().any(|l| l.body.as_ref() == Some(b));
+                if !ever_held {
+                    return "get-answered-bytes-never-written";
+                }
+                continue;
+            }
+            if a.class != Class::NotFound {
+                return "get-failed-with-other-error";
+            }
+            // NotFound although every serial order answers: how many commits of
+            // the key by other tasks landed during the life of this task?
+            let first = switches.iter().position(|(x, _)| *x == t).unwrap_or(0);
+            let last = switches.iter().rposition(|(x, _)| *x == t).unwrap_or(0);
+            let j0 = switches[first].1;
+            let j1 = switches.get(last + 1).map(|s| s.1).unwrap_or(journal.len());
+            let meta_path = format!("meta/{}", KEYS[*k as usize]);
+            let overtakes = journal[j0.min(journal.len())..j1.min(journal.len())]
+                .iter()
+                .filter(|e| e.task != t && matches!(&e.mutation, vcore::ctlstore::Mutation::Put { path, .. } if *path == meta_path))
+                .count();
+            if overtakes >= 2 {
+                worst = "not-serializable";
+            } else {
+                return "get-NotFound-after-single-overtake";
+            }
+        }
+    }
+    worst
+}
+
 fn run_one(wrap: Wrap, scn: &Scn, serial: &[Serial], ch: &mut Chooser) -> ExecOut {
     anda_db_utils::verif::set_clock(Some((1_700_000_000_000, 1000)));
     let (ctl_store, ctl) = CtlStore::new();
@@ -298,6 +376,8 @@ fn run_one(wrap: Wrap, scn: &Scn, serial: &[Serial], ch: &mut Chooser) -> ExecOu
     let results: Vec<RefCell<Vec<(ActOut, Option<String>)>>> = scn.tasks.iter().map(|_| RefCell::new(Vec::new())).collect();
     let end;
     let steps;
+    // (task polled, journal length at that moment), one entry per poll
+    let switches: RefCell<Vec<(usize, usize)>> = RefCell::new(Vec::new());
     {
         let mut sched = Sched::new();
         let store_ref: &dyn ObjectStore = store.as_ref();
@@ -318,7 +398,11 @@ fn run_one(wrap: Wrap, scn: &Scn, serial: &[Serial], ch: &mut Chooser) -> ExecOu
             });
         }
         let ctl2 = ctl.clone();
-        sched.on_switch = Some(Box::new(move |t| ctl2.set_task(t)));
+        let sw = &switches;
+        sched.on_switch = Some(Box::new(move |t| {
+            ctl2.set_task(t);
+            sw.borrow_mut().push((t, ctl2.journal_len()));
+        }));
         end = sched.run(ch, 10_000);
         steps = sched.steps.len();
     }
@@ -351,8 +435,9 @@ fn run_one(wrap: Wrap, scn: &Scn, serial: &[Serial], ch: &mut Chooser) -> ExecOu
                     format!("live instance reads {} but a fresh instance reads {}", describe(w), describe(c)),
                 );
             } else if !serial.iter().any(|(so, sf, _)| *so == outs && sf == w) {
+                let what = classify(scn, serial, &outs, w, &switches.borrow(), &ctl.journal());
                 violation = viol(
-                    "not-serializable",
+                    what,
                     format!(
                         "answers {} with final content {} match no serial order: {}",
                         describe_outs(&outs),
